@@ -155,3 +155,59 @@ pub fn gradual_palpables(
 
 /// The per-object loop of `convert_objects` step by step, and its real output.
 pub use super::convert::verif::{convert_steps, converted, ConvStep};
+
+/// Everything the catch pipeline reads of a map and a `Difficulty`, after conversion: the settings of
+/// `DifficultyValues::calculate`, the per-object steps of `convert_objects` and the slider inputs of
+/// `JuiceStream::new`.
+#[derive(Clone, Debug)]
+pub struct PipelineInputs {
+    pub version: i32,
+    pub slider_multiplier: f64,
+    pub slider_tick_rate: f64,
+    pub hr_offsets: bool,
+    pub reflect_horizontally: bool,
+    /// `usize::MAX` if no `passed_objects` was set
+    pub take: usize,
+    pub clock_rate: f64,
+    /// `map_attrs.cs as f32`
+    pub cs: f32,
+    /// `map_attrs.ar`
+    pub ar: f64,
+    pub is_convert: bool,
+    pub steps: Vec<ConvStep>,
+    pub sliders: Vec<Option<crate::osu::verif::SliderInputs>>,
+}
+
+pub fn pipeline_inputs(
+    difficulty: &Difficulty,
+    map: &Beatmap,
+) -> Result<PipelineInputs, crate::model::mode::ConvertError> {
+    let map = map.convert_ref(
+        rosu_map::section::general::GameMode::Catch,
+        difficulty.get_mods(),
+    )?;
+
+    let map_attrs = map.attributes().difficulty(difficulty).build();
+    let hr_offsets = difficulty.get_hardrock_offsets();
+
+    Ok(PipelineInputs {
+        version: map.version,
+        slider_multiplier: map.slider_multiplier,
+        slider_tick_rate: map.slider_tick_rate,
+        hr_offsets,
+        reflect_horizontally: matches!(
+            difficulty.get_mods().reflection(),
+            crate::model::mods::Reflection::Horizontal
+        ),
+        take: difficulty.get_passed_objects(),
+        clock_rate: difficulty.get_clock_rate(),
+        cs: map_attrs.cs as f32,
+        ar: map_attrs.ar,
+        is_convert: map.is_convert,
+        steps: convert_steps(&map, hr_offsets),
+        sliders: crate::osu::verif::slider_inputs(
+            &map,
+            rosu_map::section::general::GameMode::Catch,
+        ),
+    })
+}
